@@ -435,6 +435,14 @@ Definition remap_pairs (R : bremap) (I : list prov) (l : pairs) : res pairs :=
                                     end
                           end) l (Ok []).
 
+(* SpecializedMethods::remap on the whole value: BOTH tables, bridge_to_specialized first (an error in either is
+   the error of the call) *)
+Definition remap_both (R : bremap) (I : list prov) (sm : pairs * pairs) : res (pairs * pairs) :=
+  match remap_pairs R I (fst sm), remap_pairs R I (snd sm) with
+  | Ok P, Ok Q => Ok (P, Q)
+  | _, _ => Err
+  end.
+
 (* Namespaces::get_namespace *)
 Fixpoint ns_index (name : str) (l : list str) (i : nat) : res nat :=
   match l with
@@ -520,6 +528,23 @@ Definition add_specialized (J : jar) (cal : mappings) (libs : list jar) (M : map
                   end
               end
           | _, _ => Err
+          end
+      end
+  | _, _ => Err
+  end.
+
+(* `main_jar.get_specialized_methods()?.remap(&remapper_calamus)?` with the remapper_calamus that
+   add_specialized_methods_to_mappings builds (the step between detection and insertion, on its own) *)
+Definition remap_sm (J : jar) (cal : mappings) (libs : list jar) : res (pairs * pairs) :=
+  let provs := map prov_of_jar (J :: libs) in
+  match ns_index s_official (ms_ns cal) O, ns_index s_intermediary (ms_ns cal) O with
+  | Ok o, Ok i =>
+      match remapper_b cal o i with
+      | Err => Err
+      | Ok Rc =>
+          match get_specialized J with
+          | Err => Err
+          | Ok sm => remap_both Rc provs sm
           end
       end
   | _, _ => Err
